@@ -22,4 +22,28 @@ def groups():
           'insert / find / erase with no rehash pending, table of 1..3 buckets hashed by %s, 7 key patterns of 0..4 elements incl. duplicates: '
           'reference-model check (chains + size + every live element found by key, visit function offered exactly the live elements with the key, '
           'NULL visit function) after every operation; erase of a non-member with a member\'s key, double erase, re-insert' % FN[f])
+    pend = ('four elements (keys 0,1,3,1) in a table of %d buckets hashed by div or half, resize to every (1..4 buckets) x (div, half) incl. the '
+            'unchanged geometry, then every prefix (0..%d) of the keyed operations find / insert / erase / find; ')
+    tail = ('; then the full reference-model check (its lookups drive the rehash to completion), installed geometry == most recent request, '
+            'cstl_hash_load == size / requested buckets.  Every keyed operation is monitored white-box: <= 3 buckets go from dirty to clean, '
+            'rh.clean advances by >= 1 or the rehash completes, complete within `count` keyed operations')
+    for m1 in (1, 2, 3, 4):
+        b('hashb.rehash.ops.m%d' % m1, ['C03', 'C19'], 'h_b_rehash', ['-DVF_B=2', '-DVF_M1=%d' % m1, '-DVF_VAR_LO=0', '-DVF_VAR_HI=0', '-DVF_SMAX=4'],
+          (pend % (m1, 4)) + 'keyed operations only while the rehash is pending' + tail)
+        b('hashb.rehash.resize2.m%d' % m1, ['C03', 'C19'], 'h_b_rehash', ['-DVF_B=2', '-DVF_M1=%d' % m1, '-DVF_VAR_LO=1', '-DVF_VAR_HI=2', '-DVF_SMAX=2'],
+          (pend % (m1, 2)) + 'then a SECOND resize while the first is still pending (to a third geometry / back to the original one)' + tail)
+        b('hashb.rehash.misc.m%d' % m1, ['C03', 'C19'], 'h_b_rehash', ['-DVF_B=2', '-DVF_M1=%d' % m1, '-DVF_VAR_LO=3', '-DVF_VAR_HI=5', '-DVF_SMAX=1'],
+          (pend % (m1, 1)) + 'then cstl_hash_rehash (forced) / cstl_hash_shrink_to_fit / cstl_hash_swap with a second table' + tail)
+        names = {1: 'second resize to a third geometry', 2: 'resize back to the original geometry', 3: 'forced rehash', 4: 'shrink-to-fit', 5: 'swap with a second table'}
+        for v in (1, 2, 3, 4, 5):
+            b('hashb.rehash.full.m%d.v%d' % (m1, v), ['C03', 'C19'], 'h_b_rehash',
+              ['-DVF_B=2', '-DVF_M1=%d' % m1, '-DVF_VAR_LO=%d' % v, '-DVF_VAR_HI=%d' % v, '-DVF_SMAX=4'],
+              (pend % (m1, 4)) + 'then ' + names[v] + tail, tier='thorough')
+    for lo, hi in ((0, 4), (5, 9)):
+        b('hashb.enum.s%d_%d' % (lo, hi), ['C04'], 'h_b_enum', ['-DVF_B=3', '-DVF_ST_LO=%d' % lo, '-DVF_ST_HI=%d' % hi],
+          'cstl_hash_foreach_const / cstl_hash_foreach / cstl_hash_clear in table states %d..%d of 10 (0 no rehash pending; 1-3, 9 grow pending with nothing / with '
+          'elements already relocated into the new buckets; 4-6, 8 shrink pending, partly swept; 7 hash function changed; 8, 9 after insert / erase): every live '
+          'element visited exactly once, nothing else visited, early stop at every visit index returns the callback\'s value, foreach_const leaves the table '
+          'untouched, foreach completes the rehash and tolerates a callback that erases and poisons the visited element, clear hands every live element to a '
+          'poisoning callback once and leaves a table equal to a freshly initialised one that works again after resize(2, NULL) + insert + find' % (lo, hi), unwind=12)
     return G
